@@ -208,7 +208,8 @@ class EncodeSingleFigure(Contract):
 
         def tohex(I, st, args, kwargs, node):
             st.ghost["hexarg"] = args[0]
-            return Rope((Tok("HEXPAYLOAD", data=args[0]),))
+            # assumed contract of bytes.hex(): lowercase hex digits only, so the payload (digits and newlines) is brace-free ASCII
+            return Rope((Tok("HEXPAYLOAD", data=args[0], bal=z3.IntVal(0), low=z3.IntVal(0), ascii=z3.BoolVal(True)),))
         return {"RTFFigureService._get_image_dimensions": dims, "RTFFigureService._binary_to_hex": tohex}
 
     def ensures(self, c, out):
